@@ -374,6 +374,11 @@ func plan() []group {
 				gs = append(gs, group{"aescbcaead-direct", a, r})
 			}
 			gs = append(gs, group{"padding-direct", "", r})
+			for _, a := range sym {
+				if t, ok := symTable[a]; ok && (t.fam == famCBC || t.fam == famHS) {
+					gs = append(gs, group{"sym-padding", a, r})
+				}
+			}
 		}
 	}
 	return gs
@@ -389,13 +394,15 @@ func TestCheck(t *testing.T) {
 		"asymmetric: kit<->crypto/rsa, crypto/ecdsa, crypto/ed25519 both directions), tamper (one bit in every byte of every component, 8 bits in thorough; length -8..+8), "+
 		"keys (sizes 0,8,15,16,17,24,32,33,48,64 and every other key kind), noncetag (nonce and tag lengths 0..32), ctlen (ciphertext lengths 0..65/0..80), names (near-miss algorithm names on every entry point), vectors (RFC 3394 section 4, RFC 7518 appendix B). "+
 		"Buffer layouts: every tamper and wrong-size case of the symmetric entry points (crypto.EncryptSymmetric/DecryptSymmetric/Encrypt/Decrypt, aeskw.Wrap/Unwrap, aescbcaead Seal/Open, padding) is run with exactly-sized argument slices and again with the arguments cut out of a larger array with 0, 16, 64 and 2*tagSize+8 bytes of spare capacity (seeded garbage) behind their length; same oracle, signature suffix /spare-capacity, counters <class>.spare_capacity. "+
+		"PKCS#7 differential: padding.UnpadPKCS7 (block sizes 8 and 16), DecryptSymmetric/Decrypt with A*CBC on ciphertexts made with the reference's unpadded CBC, and aescbcaead.Open/DecryptSymmetric with correctly MACed A*CBC-HS* messages are fed 1-4 blocks whose last byte takes every value 0..255 (random and valid preceding bytes) plus valid paddings with one earlier padding byte damaged; kit must accept exactly when the in-harness RFC 5652 6.3 unpadder accepts (same bytes), else give an error and no output; the empty buffer is the only recorded exception. "+
 		"Every evaluation is non-trivial (it reaches kit with an input the clause quantifies over); distinct = evaluated because tuples are not repeated within a group and groups differ in algorithm or seeded material.")
 	rec.Note("require", []string{
 		"sym.roundtrip.ok", "sym.interop.kit_equals_reference", "sym.interop.kit_decrypts_reference", "sym.tamper.rejected",
 		"rejected.with_sentinel", "rejected.any_error", "vectors.rfc3394.ok", "vectors.rfc7518.ok",
 		"rsa.roundtrip.ok", "rsa.interop.std_decrypts_kit", "rsa.interop.kit_decrypts_std", "rsa.tamper.rejected",
 		"sig.roundtrip.ok", "sig.interop.std_verifies_kit", "sig.interop.kit_verifies_std", "sig.tamper.rejected",
-		"names.rejected", "tamper.spare_capacity", "wrongsize.spare_capacity", "padding.spare_capacity"})
+		"names.rejected", "tamper.spare_capacity", "wrongsize.spare_capacity", "padding.spare_capacity",
+		"padding.unpad.agree_accept", "padding.unpad.agree_reject", "padding.cbc.valid_accepted", "padding.cbc.invalid_rejected", "padding.hs.valid_accepted", "padding.hs.invalid_rejected"})
 	selfCheckRefs()
 	gs := plan()
 	for idx, g := range gs {
@@ -426,6 +433,8 @@ func TestCheck(t *testing.T) {
 			runHSDirect(j, g)
 		case "padding-direct":
 			runPaddingDirect(j, g)
+		case "sym-padding":
+			runSymPadding(j, g)
 		case "rsa-roundtrip":
 			runRSARoundTrip(j, g)
 		case "rsa-tamper":
